@@ -50,6 +50,14 @@ func (t *goTracer) of(g int64) []*canon.Node {
 
 func c11Env() (types.EnvType, *goTracer) {
 	e := hx.NewStdEnv()
+	// a host builtin that keeps a counter in the environment through Env.Update (read-modify-write under the scope's lock)
+	e.Set(types.Symbol{Val: "host-counter"}, 0)
+	e.Set(types.Symbol{Val: "bump-host-counter!"}, types.Func{Fn: func(_ context.Context, a []types.MalType) (types.MalType, error) {
+		return e.Update(types.Symbol{Val: "host-counter"}, func(v types.MalType) (types.MalType, error) {
+			n, _ := v.(int)
+			return n + 1, nil
+		})
+	}})
 	t := &goTracer{ev: map[int64][]*canon.Node{}}
 	t.install(e)
 	installFailers(e)
@@ -78,8 +86,10 @@ func c11Program(pg *gen.PG, i int) (string, []*canon.Node) {
   (trace! @fut%[1]s)
   (trace! (count big%[1]s))
   (trace! (let (x %[2]d) ((fn (x) (let (x (+ x 1)) x)) x)))
-  (def let-race%[1]s (fn (n acc) (if (< n 1) acc (let (fu (future (let (k 1) (+ k %[2]d))) lit1 1 lit2 "two" lit3 lit1 lit4 :four) (let-race%[1]s (- n 1) (+ acc (- @fu %[2]d) lit3))))))
+  (def let-race%[1]s (fn (n acc) (if (< n 1) acc (let (fu (future (let (k 1) (+ k %[2]d))) lit1 1 lit2 "two" lit3 lit1 lit4 :four) (let-race%[1]s (- n 1) (+ acc (+ (- @fu %[2]d) lit3)))))))
   (trace! (list :let-with-future (let-race%[1]s 25 0)))
+  (def bump-loop%[1]s (fn (n) (if (< n 1) :bumped (do (bump-host-counter!) (bump-loop%[1]s (- n 1))))))
+  (trace! (bump-loop%[1]s 40))
   (defmacro two-temps%[1]s (fn (a b) (let (x (gensym) y (gensym)) (list 'let (list x a y b) (list 'list x y)))))
   (def temps-loop%[1]s (fn (n bad) (if (< n 1) bad (temps-loop%[1]s (- n 1) (if (= (two-temps%[1]s 1 %[2]d) (list 1 %[2]d)) bad (+ bad 1))))))
   (trace! (list :gensym-temporaries-collided (temps-loop%[1]s 60 0)))
@@ -272,6 +282,20 @@ func c11Batch(c *fw.Ctx, r *rand.Rand, id string, T int) {
 				}
 			}(k)
 		}
+		// the REPL completer's entry point, called while evaluations define globals
+		rwg.Add(1)
+		go func() {
+			defer rwg.Done()
+			for {
+				select {
+				case <-stopReaders:
+					return
+				default:
+				}
+				_ = e.Symbols(nil, "big")
+				_ = e.Symbols(nil, "")
+			}
+		}()
 		close(start)
 		done := make(chan struct{})
 		go func() { wg.Wait(); close(done) }()
@@ -282,6 +306,25 @@ func c11Batch(c *fw.Ctx, r *rand.Rand, id string, T int) {
 		}
 		close(stopReaders)
 		rwg.Wait()
+		// every thread whose program reaches the bump loop (known from its solo run: no error) bumps 40 times
+		wantBumps := 0
+		for i := 0; i < T; i++ {
+			if solo[i].class == hx.ENone {
+				wantBumps += 40
+			}
+		}
+		if hc, err := e.Get(types.Symbol{Val: "host-counter"}); err != nil || hc != wantBumps {
+			allSame := true
+			for i := 0; i < T; i++ {
+				if conc[i].class != solo[i].class {
+					allSame = false
+				}
+			}
+			if allSame {
+				c.Violate(fw.Violation{Key: "host-update-lost", What: fmt.Sprintf("evaluations bumped a counter kept through Env.Update %d times in total; it reads %v", wantBumps, hc)})
+				return
+			}
+		}
 		c.Count("batches", 1)
 		c.Count("programs", T)
 		c.Count(fmt.Sprintf("threads.%d", T), 1)
@@ -299,6 +342,9 @@ func c11Batch(c *fw.Ctx, r *rand.Rand, id string, T int) {
 		default:
 		}
 		for i := 0; i < T; i++ {
+			if solo[i].class == hx.ENone {
+				c.Count("programs_completed_with_all_probes", 1)
+			}
 			in := fmt.Sprintf("thread %d of %d:\n%s", i, T, texts[i])
 			if conc[i].panic != "" {
 				c.Violate(fw.Violation{Key: "panic-under-concurrency", What: conc[i].panic, Input: in})
@@ -337,7 +383,7 @@ func runC11(c *fw.Ctx) {
 	}
 	r := c.Rand("batches")
 	Ts := []int{2, 4, 8, 16}
-	for i := 0; i < c.PerShard(c.Pick(240, 6000)); i++ {
+	for i := 0; i < c.PerShard(c.Pick(160, 4000)); i++ {
 		c11Batch(c, r, fmt.Sprintf("batch-%d", i), Ts[i%len(Ts)])
 	}
 }
@@ -353,6 +399,9 @@ func init() {
 		Finish: func(m *fw.Merged) {
 			m.Floor("batches", 20)
 			m.Floor("unbound_to_bound_transitions_observed", 10)
+			if m.Counts["programs"] > 0 && m.Counts["programs_completed_with_all_probes"]*2 < m.Counts["programs"] {
+				m.Inconclusive = append(m.Inconclusive, fmt.Sprintf("only %d of %d programs ran to the end of their isolation probes", m.Counts["programs_completed_with_all_probes"], m.Counts["programs"]))
+			}
 			if m.Counts["batches"] > 0 && m.Counts["batches_with_overlap"]*2 < m.Counts["batches"] {
 				m.Inconclusive = append(m.Inconclusive, fmt.Sprintf("only %d of %d batches reached T/2 simultaneously active evaluations", m.Counts["batches_with_overlap"], m.Counts["batches"]))
 			}
